@@ -1217,7 +1217,10 @@ int errBoundMode, double absErr_Bound, double relBoundRatio)
 		//printf("realPrecision=%lf\n", realPrecision);
 	}
 	else
+	{
 		realPrecision = getRealPrecision_int(valueRangeSize, errBoundMode, absErr_Bound, relBoundRatio, &status);
+		confparams_cpr->absErrBound = realPrecision; //it is serialized into the stream's parameter block (as the float and double entries do)
+	}
 
 	if(valueRangeSize <= realPrecision)
 	{
